@@ -112,9 +112,9 @@ func c01merge(s string) string {
 
 func c01n(tier string) int {
 	if tier == "thorough" {
-		return 60000
+		return 300000
 	}
-	return 2500
+	return 8000
 }
 
 func c01run(c *fw.Ctx, idx int) {
